@@ -342,8 +342,9 @@ def copy(source, dest, verbose=0):
         if verbose:
             print(_ts)
 
-        dest.tpc_begin(transaction, tid, transaction.status)
         try:
+            # (tpc_begin can fail with the commit lock already taken)
+            dest.tpc_begin(transaction, tid, transaction.status)
             for r in transaction:
                 oid = r.oid
                 if verbose:
